@@ -1138,6 +1138,8 @@ class Interp:
             return c in self.repo.mro(v.cls)
         if isinstance(v, Obj):
             return False
+        if isinstance(c, ClassInfo) and isinstance(v, (int, float, complex, str, Fr)) and not isinstance(v, bool):
+            return False          # a plain Python number / string is not an instance of a class of the repository
         raise Unsupported("isinstance on a non-object value")
 
     def x_builtins_sum(self, a, k):
